@@ -18,6 +18,7 @@ PROPERTIES = {
     'C01': ['c01'],
     'C02': ['c02'],
     'C03': ['c03', 'c11'],
+    'C05': ['c05'],
     'C06': ['c06'],
     'C08': ['c08'],
     'C09': ['c09'],
